@@ -16,9 +16,9 @@ CLAIMED = {
    technique="deterministic simulation of the render stage under every iteration order of the vulnerability map (exhaustive sub-space) plus seeded runs, invariant on totals/headings",
    engine="simproc+simbin"),
  "C13": dict(level="exploration", design="§6 C13",
-   text="Groups of executions that must agree byte-for-byte: one tree and pattern set under 6 schedules differing in listing permutation, iteration permutation and configured pattern order; and one findings set built and iterated in 6 different orders. Seeded search over schedules; a clean batch is evidence, not proof.",
+   text="Groups of executions that must agree byte for byte: one tree and pattern set under 6 schedules differing in listing permutation, iteration permutation and configured pattern order; the same configured names (also repeated) in permuted order through the real option parser; one findings set built and iterated in 6 different orders; the real binary on copies of one tree at different locations under different simulated clocks and process environments; the real std HashMap under Miri seeds. Seeded search over schedules; a clean batch is evidence, not proof.",
    note="SeamMap replaces the real RandomState by seeded permutations (all orders the HashMap contract allows); detector-local hash containers are not under the seed natively (audited order-insensitive).",
-   technique="deterministic simulation: seeded search over listing/iteration/pattern-order schedules, byte-equality of reports across schedules of the same findings",
+   technique="deterministic simulation: seeded search over listing/iteration/configuration-order schedules, simulated clock and environment for the real binary, Miri-seeded RandomState; byte-equality of reports across schedules of the same content",
    engine="simproc+simbin+simmiri"),
  "C14": dict(level="exploration", design="§6 C14",
    text="Complete table check over every documented name (read from the repository's docs and sample toml at run time) x 6 casings (acceptance, casing-independence, distinctness, default membership, selectability of every default, junk rejection, name->detector behaviour signature), plus seeded simulated process runs through the real Opts::new (clap on a simulated argv, toml file in the simulated world) judged by a small reference model of the flag/file/default resolution and by the journal (unknown name => non-zero status before any write).",
@@ -26,9 +26,9 @@ CLAIMED = {
    technique="deterministic simulation of the process environment (argv, cwd, files present, exit status, effect ordering in the journal) against a reference model of option resolution; complete enumeration of the documented-name table",
    engine="simproc+simbin"),
  "C15": dict(level="exploration", design="§6 C15",
-   text="Seeded histories of library calls compared with a fresh-process baseline: chains of scenarios run without reset in one child process; each scenario is 2-4 tasks on real OS threads under a baton scheduler whose seeded order decides which thread performs the next call (direct per-file calls with arbitrary file numbers, repeated calls, directory walks embedding the same texts among varying siblings/positions/pattern sets). Every observed (text, pattern) verdict must equal the verdict of one call in a fresh process. Replay and minimisation re-run the chain in fresh processes.",
+   text="Seeded histories of library calls compared with a fresh-process baseline: chains of 10 (every eighth: 80) scenarios run without reset in one child process; a scenario is 2-5 tasks on real OS threads of which exactly one runs at a time -- at call granularity (baton order is data) or, in a third of the scenarios, interleaved at guarded yield points inside the AST walker, the line conversion and the simulated file-system calls with a seeded switch probability. Operations: direct per-file calls with arbitrary file numbers, repeated calls, directory walks embedding the same texts among varying siblings (also siblings sharing a bare name), equal-length twins, texts nested 32 levels deep. Every observed verdict must equal the verdict of one call in a fresh process. Miri adds truly concurrent calls with data-race detection.",
    note="Call-granular interleaving (one thread runs at a time) natively; preemptive interleaving, data races and seeded RandomState only in the simmiri tier. Baseline trusts a single call in a fresh process.",
-   technique="deterministic simulation: seeded baton scheduling of real threads over call histories, differential oracle against a fresh-process single-call baseline",
+   technique="deterministic simulation: seeded baton scheduling of real threads down to yield points inside library calls, differential oracle against a fresh-process single-call baseline, Miri-seeded preemptive schedules",
    engine="simproc+simbin+simmiri"),
  "C16": dict(level="fault_enumeration", design="§6 C16",
    text="Differential simulation: the same walk with and without the inert files under the same schedule must agree and must not fail; every inert file carries a fault (invalid UTF-8, unparseable text, findings-stuffed valid Solidity, read->EIO, read->EACCES) so that touching it is consequential. The name-class x content-class x depth cross product is enumerated completely in every tier; tree shapes, random valid-Unicode names and schedules around it are seeded samples.",
@@ -41,7 +41,7 @@ CLAIMED = {
    technique="deterministic simulation of run histories over a simulated file system with before/after state snapshots and a differential stale-report oracle",
    engine="simproc+simbin"),
  "C03": dict(level="exploration", design="§6 C03",
-   text="Seeded simulation of the real directory walkers over in-memory trees under adversarial listing orders, judged against an independent walk that calls the real per-file function on every eligible file (exact multiset equality). Sampling, not proof; the failing traces of this class are tiny (two files, one sub-directory, one transposition) and the quick tier hits the merge path thousands of times.",
+   text="Seeded simulation of the real directory walkers over in-memory trees (random valid-Unicode names, case-variant and equal-length siblings, directories with >256 entries, chains up to 90 levels, files of 1 MB / 65 000+ lines) under adversarial listing orders, judged against an independent walk that calls the real per-file function on every eligible file (exact multiset equality). One small sub-space (2-3 files over four directories, every listing order) is enumerated completely. The real binary repeats the comparison on real scratch trees and must agree byte for byte with the in-process engine. Sampling, not proof.",
    note="Trusts the per-file functions as their own oracle; std::fs is replaced by the in-memory Env behind the cfg seam (simbin tier runs the real binary on a real scratch tree); eligible files are screened valid inputs.",
    technique="deterministic simulation: seeded listing-order/pattern-order schedules over a simulated file system, reference-model (independent walk) oracle, minimised replay files",
    engine="simproc+simbin"),
